@@ -219,13 +219,13 @@ func c03Decode(c *Ctx) {
 			continue
 		}
 		okRet++
-		gate := edgesMatching(b, "bin<==>(call<(*math/big.Int).Cmp>($x, call<*>($e, $n)), 0)", "bin<==>(call<(*math/big.Int).Cmp>(call<*>($e, $n), $x), 0)")
+		gate := edgesMatching(b, "bin<==>(call<(*math/big.Int).Cmp>($x, "+c03Chk("$e", "$n")+"), 0)", "bin<==>(call<(*math/big.Int).Cmp>("+c03Chk("$e", "$n")+", $x), 0)")
 		if len(gate) == 0 {
 			r.Viol("C03.checksum-gate.present", c.ipos(e.Instr), "no comparison of the decoded checksum with a recomputed one guards the success return")
 			continue
 		}
 		r.Check(exitMustPass(fn, e, plainEdges(gate)), "C03.checksum-gate.present", c.ipos(e.Instr), "success return passes Cmp(checksum, recomputed)==0")
-		bd, _ := ana.MatchAny(gate[0].Lit, "bin<==>(call<(*math/big.Int).Cmp>($x, call<*>($e, $n)), 0)", "bin<==>(call<(*math/big.Int).Cmp>(call<*>($e, $n), $x), 0)")
+		bd, _ := ana.MatchAny(gate[0].Lit, "bin<==>(call<(*math/big.Int).Cmp>($x, "+c03Chk("$e", "$n")+"), 0)", "bin<==>(call<(*math/big.Int).Cmp>("+c03Chk("$e", "$n")+", $x), 0)")
 		r.Check(bd["$e"].String() == valT.String(), "C03.checksum-gate.same-bytes", c.ipos(e.Instr), "the bytes whose checksum is recomputed are exactly the bytes returned")
 		// decoded checksum = decoder & (2^n - 1), n = ENT/32; entropy = decoder >> n
 		nT := bd["$n"]
@@ -269,13 +269,14 @@ func c03Decode(c *Ctx) {
 		dec, _ := ana.FindX(c.P, "obj(alloc<math/big.Int>, maybe(call<(*math/big.Int).Lsh>(self, self, 11)), maybe(call<(*math/big.Int).Or>(self, self, call<math/big.NewInt>(conv<int64>(call<(repo/pkg/bip39/wordlist.List).Index>(load(global<repo/pkg/bip39.wordList>), load(iaddr(p0, bin<+>(ind<+1>(-1), 1)))))))), ...)", valT)
 		r.Check(dec != nil, "C03.bit-layout.decode-loop", c.ipos(e.Instr), "decoder = for each word first→last: decoder<<11 | Index(word), starting from 0")
 		// entropy bytes = padded (decoder >> n).Bytes()
-		pb, okP := ana.MatchX(c.P, "call<*>(call<(*math/big.Int).Bytes>(obj(alloc<math/big.Int>, maybe(_), maybe(_), call<(*math/big.Int).Rsh>(self, self, conv<uint>($n)))), alt(bin</>($bits, 8), bin<>>>($bits, 3)))", valT)
+		// (the padding helper is looked through: its result is leftpad(bytes, size), as is the same append written in place)
+		pb, okP := ana.MatchX(c.P, "call<leftpad>(call<(*math/big.Int).Bytes>(obj(alloc<math/big.Int>, maybe(_), maybe(_), call<(*math/big.Int).Rsh>(self, self, conv<uint>($n)))), alt(bin</>($bits, 8), bin<>>>($bits, 3)))", valT)
 		r.Check(okP && pb["$n"].String() == nT.String(), "C03.checksum-gate.entropy-split", c.ipos(e.Instr), "entropy = pad((decoder >> n).Bytes(), ENT/8)")
 	}
 	r.Floor("C03.floor.decode-success", okRet, 1, "success returns of MnemonicToEntropy")
 
 	// computeChecksum helper
-	for _, ce := range edgesMatching(b, "bin<==>(call<(*math/big.Int).Cmp>($x, call<*>($e, $n)), 0)") {
+	for _, ce := range edgesMatching(b, "bin<==>(call<(*math/big.Int).Cmp>($x, "+c03Chk("$e", "$n")+"), 0)") {
 		h := calleeOf(ce.Lit.Arg(0).Arg(1))
 		if h == nil {
 			continue
@@ -293,6 +294,12 @@ func c03Decode(c *Ctx) {
 			r.Check(ok, "C03.checksum-gate.helper-term", c.ipos(e.Instr), "checksum(bytes, n) = SetBytes(SHA256(bytes)) >> (256-n): %s", short(t.String(), 300))
 		}
 	}
+}
+
+// c03Chk is the checksum of bytes e with n bits: the routine called with both, or — looked through — its value
+// SetBytes(SHA256(e)) >> (256-n), whatever arguments the routine takes.
+func c03Chk(e, n string) string {
+	return "alt(call<*>(" + e + ", " + n + "), obj(alloc<math/big.Int>, call<(*math/big.Int).SetBytes>(self, slice(obj(alloc<[32]byte>, store(self, call<crypto/sha256.Sum256>(" + e + "))), 0, none)), call<(*math/big.Int).Rsh>(self, self, conv<uint>(bin<->(256, " + n + ")))))"
 }
 
 func c03FixedWidth(c *Ctx) {
@@ -316,6 +323,8 @@ func c03FixedWidth(c *Ctx) {
 					switch {
 					case name == "(*math/big.Int).SetBytes", strings.HasSuffix(name, ".ScalarBaseMult"), strings.HasSuffix(name, ".ScalarMult"), name == "builtin.len":
 						r.OK(key, c.ipos(u), "Bytes() feeds %s, which reads a big-endian integer of any length (exempt)", name)
+					case name == "builtin.append" && b.CallTermAt(u).Is("call", "leftpad") && b.CallTermAt(u).Arg(0).V == ssa.Value(call):
+						r.OK(key, c.ipos(u), "Bytes() is left-padded in place: append(make([]byte, size-len(b), …), b...)")
 					default:
 						callee := ana.StaticRepoCallee(u.Common())
 						if callee == nil {
@@ -373,6 +382,7 @@ func isLeftPad(c *Ctx, fn *ssa.Function, pi int) bool {
 		}
 		t := b.Of(e.Results[0], e.Instr)
 		if _, m := ana.MatchAny(t,
+			"call<leftpad>("+p+", $size)", // canonical form of append(make([]byte, size-len(b), …), b...)
 			"concat(makeslice<[]byte>(bin<->($size, len("+p+")), _), "+p+")",
 			"concat(slice(alloc<*>, 0, bin<->($size, len("+p+"))), "+p+")",
 			"obj(makeslice<[]byte>($size, $size), call<builtin.copy>(slice(self, bin<->($size, len("+p+")), none), "+p+"))"); m {
@@ -457,7 +467,7 @@ func c03Encode(c *Ctx) {
 					continue
 				}
 				r.OK("C03.bit-layout.encode-word", c.ipos(st), "word[i] = wordList.Word(bigEntropy & (2^11-1))")
-				eb, okE := ana.Match("obj(alloc<math/big.Int>, call<(*math/big.Int).SetBytes>(self, p0), call<(*math/big.Int).Lsh>(self, self, conv<uint>($cs)), call<(*math/big.Int).Or>(self, self, call<*>(p0, $cs)), maybe(call<(*math/big.Int).Rsh>(self, self, 11)))", vb["$E"])
+				eb, okE := ana.Match("obj(alloc<math/big.Int>, call<(*math/big.Int).SetBytes>(self, p0), call<(*math/big.Int).Lsh>(self, self, conv<uint>($cs)), call<(*math/big.Int).Or>(self, self, "+c03Chk("p0", "$cs")+"), maybe(call<(*math/big.Int).Rsh>(self, self, 11)))", vb["$E"])
 				r.Check(okE, "C03.bit-layout.encode-assembly", c.ipos(st), "bigEntropy = SetBytes(entropy) << CS | checksum(entropy, CS), shifted right by 11 per word: %s", short(vb["$E"].String(), 400))
 				if okE {
 					_, okC := ana.Match("bin</>(bin<*>(len(p0), 8), 32)", eb["$cs"])
@@ -478,7 +488,7 @@ func c03Encode(c *Ctx) {
 					if d != nil {
 						var dh *ssa.Function
 						db := ana.NewBuilder(c.P, d)
-						for _, ce := range edgesMatching(db, "bin<==>(call<(*math/big.Int).Cmp>($x, call<*>($e, $n)), 0)") {
+						for _, ce := range edgesMatching(db, "bin<==>(call<(*math/big.Int).Cmp>($x, "+c03Chk("$e", "$n")+"), 0)") {
 							dh = calleeOf(ce.Lit.Arg(0).Arg(1))
 						}
 						or, _ := ana.Find("call<(*math/big.Int).Or>(self, self, call<*>(p0, _))", vb["$E"])
